@@ -130,3 +130,7 @@ package cargo
 // ---- termination (C06)
 //@ func normalizePartialVersion
 //@   loop 1 decreases 3 - len(parts)
+
+// ---- the registered name (the VERS evaluator and the CLI select behaviour by it)
+//@ func (*Ecosystem).Name
+//@   ensures result == "cargo"   [C04 C15 C17]
